@@ -5,4 +5,5 @@ CONSTANTS
   Alphabet <- NoKinds
   Kinds <- NoKinds
   EmptyLine <- EmptyTuple
+  Edits = FALSE
 CHECK_DEADLOCK FALSE
